@@ -146,6 +146,17 @@ func buildWorker() (bin string, ii instrInfo, buildS float64) {
 	if base == "" {
 		base = "/var/tmp"
 	}
+	// scratch copies left behind by checks that were killed (SIGKILL, time limits)
+	if old, _ := filepath.Glob(filepath.Join(base, "verif-nas.*")); len(old) > 0 {
+		for _, d := range old {
+			var pid int
+			if _, err := fmt.Sscanf(filepath.Ext(d), ".%d", &pid); err == nil && pid > 0 {
+				if err := syscall.Kill(pid, 0); err == syscall.ESRCH {
+					os.RemoveAll(d)
+				}
+			}
+		}
+	}
 	scratch = filepath.Join(base, fmt.Sprintf("verif-nas.%d", os.Getpid()))
 	os.RemoveAll(scratch)
 	if err := os.MkdirAll(scratch, 0o755); err != nil {
